@@ -11,6 +11,7 @@ from .report import where
 from .facts import in_module
 from . import storemodel as sm
 from . import mutpoints as mp
+from . import inline as inl
 from . import orderdom as od
 
 GS = sm.GS
@@ -188,6 +189,36 @@ def _position_by_edge_id(F, b, call):
     return False
 
 
+def _index_loop_by_edge_id(b, call):
+    """remove(pos) on the true side of `list[pos].id == id` (two EdgeId values compared, the element taken at the same
+    position that is then removed): the index-loop spelling of retain-by-id"""
+    if len(call.args) < 2 or call.args[1][0] == "k":
+        return False
+    pos = od.chain_locals(b, call.args[1])
+    for c in b.calls():
+        if c.path.rsplit("::", 1)[-1] != "eq" or len(c.args) < 2 or c.target is None:
+            continue
+        tys = [b.local_ty(a[1][0]) for a in c.args[:2] if a[0] != "k"]
+        if len(tys) != 2 or not all(t.replace("&", "").strip().endswith("types::EdgeId") for t in tys):
+            continue
+        sb_, t = b.switch_on(c.dest[0], c.target)
+        if t is None:
+            continue
+        zero = [tgt for v, tgt in t[2] if v == "0"]
+        true_t = t[3] if zero else None
+        if true_t is None or not (b.dominates(sb_, call.bb) and call.bb in b.reachable(true_t, avoid={sb_}) and call.bb not in b.reachable(zero[0], avoid={sb_})):
+            continue
+        # one operand is a field of the element indexed at `pos`
+        for a in c.args[:2]:
+            if a[0] == "k":
+                continue
+            for o in b.origins(a[1][0], through_calls=lambda cc: [0] if cc.path.rsplit("::", 1)[-1] in ("index", "index_mut", "deref", "get_unchecked") else None):
+                if o[0] == "via" and o[1].path.rsplit("::", 1)[-1] in ("index", "index_mut") and len(o[1].args) > 1 and o[1].args[1][0] != "k":
+                    if od.chain_locals(b, o[1].args[1]) & pos:
+                        return True
+    return False
+
+
 def _from_param(cb, local, param):
     og = cb.origins(local)
     return any(o[0] == "arg" and o[1] == param for o in og)
@@ -223,10 +254,12 @@ def removal_by_id(ctx, F, cg, RULE):
                     ctx.violation(RULE, key + "|not-by-id", where(r, c.line), "adjacency entries are removed by a predicate that is not `entry.id != deleted id`: %s (parallel relationships between one pair share the neighbour, only the id tells them apart)" % why)
             elif nm in ("remove", "swap_remove") and _position_by_edge_id(F, b, c):
                 ctx.ok(RULE, key, "removes the entry at a position found by `entry.id == captured id`")
+            elif nm in ("remove", "swap_remove") and _index_loop_by_edge_id(b, c):
+                ctx.ok(RULE, key, "removes the entry at a position just tested with `list[pos].id == id`")
             else:
                 ctx.violation(RULE, key + "|positional", where(r, c.line),
                               "an adjacency entry is removed with %s (by position, not by relationship id): with parallel relationships or an unsorted stub-loaded list the position found need not be the deleted relationship's entry" % nm)
-    ctx.floor(RULE, "selective removals on adjacency lists", n, 2)
+    ctx.floor(RULE, "selective removals on adjacency lists", n, 1)
 
 
 def endpoints_checked(ctx, F, cg, RULE, reviewed=None):
@@ -238,8 +271,14 @@ def endpoints_checked(ctx, F, cg, RULE, reviewed=None):
             continue
         b = Body(F.mir(r["path"]), r)
         ctx.saw_fn(r["path"]); ctx.saw_calls(len(b.calls()))
-        # adjacency write points
+        priv = inl.private_helpers(F, r["path"])
+        # adjacency write points (a private helper that links the relationship counts as the write)
         wr = []
+        for c in b.calls():
+            if c.path in F.fns and priv(c.path):
+                w_ = cg.transitive_effects(c.path, "w")
+                if any(f in (GS + ".outgoing", GS + ".incoming") for f in w_):
+                    wr.append(c)
         for c in b.calls():
             if c.args and c.args[0][0] != "k" and mp._is_mut_ref(b.local_ty(c.args[0][1][0])) and c.path.rsplit("::", 1)[-1] in ("push", "insert"):
                 fs = [f.split(".")[-1] for f in od.chain_fields(b, c.args[0], through=("deref", "deref_mut", "as_mut", "index_mut", "get_mut", "unwrap", "expect")) if f.startswith(GS + ".")]
@@ -277,6 +316,29 @@ def endpoints_checked(ctx, F, cg, RULE, reviewed=None):
             errs = {eb for eb, el, ew in mp.error_exits(b)}
             if not any(w.bb in reach for w in wr) and (reach & errs) and all(b.dominates(i, w.bb) for w in wr):
                 guarded += 1
+        # the tests moved into a private checking helper: every has_node test in it sends the absent side to an
+        # error return only, the caller propagates its failure without writing, and the call dominates the writes
+        for c in b.calls():
+            if not (c.path in F.fns and priv(c.path)) or "Result<" not in F.fns[c.path]["sig"].rsplit("->", 1)[-1]:
+                continue
+            hm = F.mir(c.path)
+            if hm is None:
+                continue
+            hb = Body(hm, F.fns[c.path])
+            hk = _guarded_presence_tests(hb)
+            if not hk:
+                continue
+            side = mp.some_side(b, c)
+            if side is None:
+                continue
+            sb_, ok_t = side
+            t_ = b.blocks[sb_]["t"]
+            fails = [tgt for v, tgt in t_[2] if tgt != ok_t] + ([t_[3]] if t_[3] != ok_t else [])
+            freach = set()
+            for ft in fails:
+                freach |= b.reachable(ft, avoid={sb_})
+            if fails and not any(w.bb in freach for w in wr) and all(b.dominates(c.bb, w.bb) for w in wr):
+                guarded += hk
         if guarded >= 2:
             ctx.ok(RULE, n, "%d endpoint liveness tests dominate %d adjacency writes; a missing endpoint returns Err" % (guarded, len(wr)))
         elif n in reviewed:
@@ -284,6 +346,34 @@ def endpoints_checked(ctx, F, cg, RULE, reviewed=None):
         else:
             ctx.violation(RULE, n + "|endpoint-not-checked", where(r, wr[0].line),
                           "%s links a relationship into the adjacency lists with %d of 2 endpoints tested by has_node on the way: an id whose node was deleted (its arena slot still exists) gets a relationship that dangles from a missing node, and the next node reusing the id inherits it" % (n, guarded))
+
+
+def _guarded_presence_tests(hb):
+    """number of has_node tests in a checking helper whose node-absent side can only return Err"""
+    oks = {i for i, j, pl, rv, line, exp in hb.stmts() if pl[0] == 0 and rv[0] == "agg" and rv[1].endswith("Result::Ok")}
+    n = 0
+    for c in hb.calls():
+        if c.path != GS + "::has_node" or c.target is None:
+            continue
+        for i in [c.target] + list(hb.succ(c.target)):
+            tt = hb.blocks[i]["t"]
+            if tt[0] != "switch" or tt[1][0] == "k":
+                continue
+            e = od.expr_of(hb, tt[1])
+            roots = [x for x in od.roots(e) if x[0] == "call" and x[2] == c.bb]
+            if not roots:
+                continue
+            try:
+                absent_val = int(bool(od.evaluate(e, {roots[0]: 0})))
+            except Exception:
+                break
+            tg = [tgt for v, tgt in tt[2] if v == str(absent_val)]
+            absent_t = tg[0] if tg else tt[3]
+            reach = hb.reachable(absent_t, avoid={i})
+            if not (reach & oks) and any(eb in reach for eb, el, ew in mp.error_exits(hb)):
+                n += 1
+            break
+    return n
 
 
 def remove_before_insert(ctx, F, cg, RULE, pairs=(("index_insert", "index_remove"),)):
@@ -697,7 +787,7 @@ def creators_link_on_every_path(ctx, F, cg, RULE):
         if r is None:
             ctx.anchor_failure(RULE, GS + "::" + n)
             continue
-        b = Body(F.mir(r["path"]), r)
+        b = inl.body(F, r["path"], inl.private_helpers(F, r["path"]))
         ctx.saw_fn(r["path"]); ctx.saw_calls(len(b.calls()))
         oks = [i for i, j, pl, rv, line, exp in b.stmts() if pl[0] == 0 and not pl[1] and rv[0] == "agg" and rv[1].endswith("Result::Ok")]
         for direction in ("outgoing", "incoming"):
